@@ -201,7 +201,7 @@ CHECKS["C07"] = dict(
 
 CHECKS["C13"] = dict(
     runs=[dict(pkg="client", harness="VfC13_accounting_q", reach=["end", "pre-built", "await-ok", "await-errors"], thorough=dict(skip=True),
-               bounds="client in RIB-ack or FIB-ack mode after StartSending; 0-2 operations queued in separate requests or in ONE request (symbolic ids - equal ids included -, ADD/REPLACE, IPv4/group/MPLS, symbolic key), handshake answered or not; ONE response of any shape: 1-2 results (symbolic id, status in {FAILED,RIB_PROGRAMMED,FIB_PROGRAMMED,FIB_FAILED,UNSET}), election, session parameters, or mixed content; then the convergence check"),
+               bounds="client in RIB-ack or FIB-ack mode after StartSending; 0-2 operations queued in separate requests or in ONE request (symbolic ids - equal ids included -, ADD/REPLACE/DELETE, IPv4/group/MPLS, symbolic key), handshake answered or not; ONE response of any shape: 1-2 results (symbolic id, status in {FAILED,RIB_PROGRAMMED,FIB_PROGRAMMED,FIB_FAILED,UNSET}), election, session parameters, or mixed content; then the convergence check"),
           dict(pkg="client", harness="VfC13_longReader", reach=["end"], validate=1, opts=dict(only=["C13:"], unwind=40),
                bounds="'at all times': a reader holds the results read lock (a long Results / AckResult / Status call) before or after the session's own requests, 1..3 operations are queued and answered; when no goroutine can move any more, every request handed over is pending xor resulted (operations, election update, session parameters); after the reader has gone the client converges with one result per operation"),
           dict(pkg="client", harness="VfC13_recvViolation", reach=["end"], validate=0, replay_attempts=30, opts=dict(unwind=40),
